@@ -157,6 +157,25 @@ def check_steps(d, M):
                         if got != exp:
                             M.violation("C19.step", {"what": "token fields differ (type, keyword, trimmed text, column of the keyword)",
                                                      "line": line, "got": got, "want": exp}, case)
+        # a matcher of ANOTHER dialect that is still alive (used earlier in this process, never reset since) goes on
+        # recognising its own step lines, whatever this dialect's matchers have done in the meantime
+        others = [k for k in _SEQ if isinstance(k, tuple) and k[1] != d]
+        if others:
+            ok_ = others[(len(kw) + len(d)) % len(others)]
+            ospec = dialects.master()[ok_[1]]
+            okw = [k for k, _ in dialects.step_keywords(ospec) if k != "* "][(len(kw)) % max(1, len([k for k, _ in dialects.step_keywords(ospec) if k != "* "]))]
+            oline = "- " + okw + "probe\n"
+            owant = expected_step(ospec, oline)
+            ot = token(oline)
+            try:
+                ores = bool(_SEQ[ok_].match_StepLine(ot))
+            except Exception as e:
+                ores = "raised %r" % (e,)
+            M.count("other_dialect_probes")
+            if ores is not (owant is not None) or (owant and (ot.matched_keyword, ot.matched_text, ot.location.get("column")) != owant):
+                M.violation("C19.step", {"what": "a Markdown matcher of dialect %s, alive while matchers of dialect %s are used, no longer reads its own step line" % (ok_[1], d),
+                                         "line": oline, "result": ores, "got": [getattr(ot, "matched_keyword", None), getattr(ot, "matched_text", None)], "want": owant},
+                            {"kind": "step", "dialect": ok_[1], "line": oline})
         # header lines are not steps; step keyword lines are not headers
         res, _ = call(m, "match_StepLine", "# " + kw + "x\n")
         if res is not False and expected_step(spec, "# " + kw + "x\n") is None:
